@@ -75,6 +75,9 @@ func (g *gateAppender) snapshot() []string {
 	return append([]string(nil), g.got...)
 }
 
+// c04Degraded: a call that cannot block did not return within seconds; later calls of this process are classified after the short wait only
+var c04Degraded atomic.Bool
+
 func waitSignal(ch chan struct{}, d time.Duration) bool {
 	select {
 	case <-ch:
@@ -248,7 +251,16 @@ func runC04Case(line string) string {
 				kind, id := op[0], op[1:]
 				done := make(chan struct{}, 1)
 				go func() { submitTo(l, kind, id); done <- struct{}{} }()
-				if !waitSignal(done, 80*time.Millisecond) {
+				returned := waitSignal(done, 80*time.Millisecond)
+				if !returned && !c04Degraded.Load() && (l.VerifBufLen() < cap || !strings.HasPrefix(f[1], "Block")) {
+					// with room in the buffer, or under a discarding policy, no submission waits for anything: on a loaded machine
+					// the call is merely slow. (The worker stays parked, so a call that does wait is still found - once.)
+					returned = waitSignal(done, 3*time.Second)
+					if !returned {
+						c04Degraded.Store(true)
+					}
+				}
+				if !returned {
 					flag = "b"
 					blocked = append(blocked, done)
 				} else if kind != 'd' && kind != 'u' && !holding {
